@@ -22,7 +22,7 @@ echo "suite with patch: $suite" >> "$log"
 mkdir -p tests; cp "$demo" tests/demo_seed.rs
 with=$(cargo test --offline $fflag --test demo_seed 2>&1 | grep -E "^test result|error\[" | head -3 | tr '\n' ' ')
 echo "demo with patch: $with" >> "$log"
-git stash -q -- src
+git checkout -q -- src
 without=$(cargo test --offline $fflag --test demo_seed 2>&1 | grep -E "^test result|error\[" | head -3 | tr '\n' ' ')
 echo "demo without patch: $without" >> "$log"
 cp "$demo" "$out/$(basename $demo)"
